@@ -2,8 +2,10 @@
 
 1. TLC explores spec/DipConstraints.tla: every program (one node of type int|float|str|bool, defined or
    declared, 0-2 modifications in the node's or another unit, 0-3 constraint lines: options per line,
-   !options lists, !condition with {?}, !format, array dimension bounds; constraint lines after the
-   definition or after a modification, with or without a second node in between) of the bounded pools,
+   !options lists, !condition with {?}, !format, array dimension bounds of rank 1-3 mixing exact / interval / half-open /
+   free dimensions in every order; constraint lines after the definition or after a modification, with or
+   without a second node in between; the node addressed directly or defined in a group / a $source file,
+   imported by `{?group.*}` / `{src?*}` and modified as the imported copy) of the bounded pools,
    with final values on / next to / off every boundary.  For each program TLC computes the IDEAL verdict
    (accept / reject / unspecified, exact rationals, the 1e-6 precision on an integer ulp scale), the
    MACHINE's prediction (a transcription of the validation loop of DIP.parse with named deviations) and
@@ -223,7 +225,7 @@ def run(replay=None):
         "evaluations": nrec,
         "distinct_nontrivial": nontrivial,
         "rule": "every program TLC reaches in spec/DipConstraints.tla (node family x definition|declaration x <= "
-                f"{1 if t == 'quick' else 2} modifications x <= 3 constraint lines x placement x bystander, pools in the "
+                f"{1 if t == 'quick' else 2} modifications x <= 3 constraint lines x placement x bystander x direct|local import|source import, pools in the "
                 "spec, exhaustive) is one distinct case; each is rendered once (spelling chosen by the seed) and parsed "
                 "by the real DIP; non-trivial = the node carries at least one constraint line or dimension bound",
         "samples": samples[:8],
